@@ -752,6 +752,9 @@ func c08RunSeq(c *vk.Case, many bool) {
 		switch {
 		case anyFail && err == nil:
 			c.Violate("c08:"+wl+":fault-swallowed", detail(), "Get %s succeeded although one of its fetches was failed by the source", call)
+		case !anyFail && err != nil && wallClockTimeout(err):
+			c.Inconclusive("the client's own 10 s wall-clock timeout fired (overloaded machine): %v", err)
+			return
 		case !anyFail && err != nil:
 			c.Violate("c08:"+wl+":error-without-fault", detail(), "Get %s failed (%v) although no fault was injected during the call", call, err)
 			outcomeKinds["error-without-fault"] = true
@@ -1027,6 +1030,12 @@ func c08RunConc(c *vk.Case) {
 	case failed > faults:
 		d := detail()
 		for _, res := range results {
+			if res.err != nil && wallClockTimeout(res.err) {
+				c.Inconclusive("the client's own 10 s wall-clock timeout fired (overloaded machine): %v", res.err)
+				return
+			}
+		}
+		for _, res := range results {
 			if res.err != nil {
 				d["an_error"] = res.err.Error()
 				break
@@ -1180,6 +1189,9 @@ func c08RunHeadSeq(c *vk.Case) {
 		switch {
 		case failedFetch && err == nil:
 			c.Violate("c08:head-seq:fault-swallowed", detail(), "Latest(%d) succeeded although its fetch was failed by the source", n)
+		case !failedFetch && err != nil && wallClockTimeout(err):
+			c.Inconclusive("the client's own 10 s wall-clock timeout fired (overloaded machine): %v", err)
+			return
 		case !failedFetch && err != nil:
 			c.Violate("c08:head-seq:error-without-fault", detail(), "Latest(%d) failed (%v) although no fault was injected during the call", n, err)
 		}
@@ -1456,6 +1468,10 @@ func c08RunHeadPoll(c *vk.Case) {
 		detail["not_announced"] = bad
 		c.Violate("c08:head-poll:pair-not-announced", detail, "Latest returned %s, a pair the source had not announced", bad[0])
 	}
+	if nErr > 0 && (strings.Contains(anErr, "Client.Timeout") || strings.Contains(anErr, "deadline exceeded") || strings.Contains(anErr, "closed pipe")) {
+		c.Inconclusive("the client's own 10 s wall-clock timeout fired (overloaded machine): %s", anErr)
+		return
+	}
 	if nErr > 0 {
 		detail["an_error"] = anErr
 		c.Violate("c08:head-poll:error-without-fault", detail, "%d Latest calls failed although only the background poller was failed (%s)", nErr, anErr)
@@ -1469,4 +1485,15 @@ func c08RunHeadPoll(c *vk.Case) {
 	c.Evals(nCalls)
 	c.SetSig("head-poll|mr=%d|G=%d|faults=%s|resets=%d", maxreads, G, c08SetStr(faultKinds), min(resets, 2))
 	c.Sample(detail)
+}
+
+
+// wallClockTimeout: jrpc2's http.Client has a hard 10 s timeout; on an overloaded
+// machine it fires without any injected fault. That is a watchdog, not a verdict.
+func wallClockTimeout(err error) bool {
+	if err == nil {
+		return false
+	}
+	m := err.Error()
+	return strings.Contains(m, "Client.Timeout") || strings.Contains(m, "deadline exceeded") || strings.Contains(m, "closed pipe") || strings.Contains(m, "i/o timeout")
 }
